@@ -5,6 +5,7 @@ import (
 	"go/types"
 	"math/bits"
 	"net/textproto"
+	"net/url"
 	"path"
 	"regexp"
 	"strconv"
@@ -717,6 +718,12 @@ func registerStrings(m map[string]Intrinsic) {
 	m["math/bits.TrailingZeros"] = bitsFn(func(v uint64) int { return bits.TrailingZeros64(v) })
 	m["math/bits.TrailingZeros64"] = bitsFn(func(v uint64) int { return bits.TrailingZeros64(v) })
 	m["math/bits.LeadingZeros64"] = bitsFn(func(v uint64) int { return bits.LeadingZeros64(v) })
+	m["net/url.PathEscape"] = func(e *Exec, st *State, ci *CallInfo) Outcome {
+		return val(e.ConcStr(url.PathEscape(mustConc(ci.Args[0], "url.PathEscape argument"))))
+	}
+	m["net/url.QueryEscape"] = func(e *Exec, st *State, ci *CallInfo) Outcome {
+		return val(e.ConcStr(url.QueryEscape(mustConc(ci.Args[0], "url.QueryEscape argument"))))
+	}
 	m["strconv.ParseFloat"] = inParseFloat
 	m["fmt.Sprintf"] = inSprintf
 	m["fmt.Sprint"] = func(e *Exec, st *State, ci *CallInfo) Outcome {
